@@ -1699,3 +1699,225 @@ def normalize_sync_path(toks):
             out.append(t)
         i += 1
     return out
+
+
+# ---------------------------------------------------------------------------
+# front end: attribute lists (C17, C15)
+# ---------------------------------------------------------------------------
+
+DOCUMENTED_ERRORS = ('Unkonwn entrait option', 'Unsupported option', 'expected', 'unexpected')
+
+
+class LazyToks:
+    """token list view that forces a position only when the reference parser looks at it"""
+
+    def __init__(self, ex, cells):
+        self.ex = ex
+        self.cells = cells
+
+    def __len__(self):
+        return len(self.cells)
+
+    def get(self, i):
+        from . import front
+        if i >= len(self.cells):
+            return front.END
+        return front.tok_at(self.ex, front.PBuf(self.cells, i, 'a'))
+
+
+def spec_front_attr(ex, target, cells, parsed, attr0):
+    from . import front
+    O = Obligations()
+    lz = LazyToks(ex, cells)
+
+    class LP(front.RefParse):
+        def __init__(s2):
+            s2.i = 0
+
+        def peek(s2, k=0):
+            return lz.get(s2.i + k)
+    # run the reference grammar lazily
+    ref = ref_parse_lazy(front, LP, target)
+    kind = ref[0]
+    got_ok = parsed.variant == 'Ok'
+    if kind == 'unspecified':
+        return O
+    if kind == 'err':
+        O.add('C17', 'undocumented-attribute-list-is-rejected', not got_ok, f'reference grammar rejects ({ref[1]}) but the macro accepted', cls=ref[1].replace(' ', '-'))
+        if not got_ok:
+            e = parsed.fields[0]
+            msg = e.fields[1]
+            O.add('C15', 'rejection-has-a-diagnostic-at-the-offending-token', isinstance(e.fields[0], Span) and e.fields[0].origin != 'call_site' and
+                  isinstance(msg, str) and any(msg.startswith(p) or p in msg for p in DOCUMENTED_ERRORS), f'message `{msg}` span {e.fields[0]}')
+            if ref[1].startswith('unknown option'):
+                O.add('C15', 'unknown-option-message', isinstance(msg, str) and msg.startswith('Unkonwn entrait option'), f'`{msg}`')
+            if 'is not documented for' in ref[1]:
+                self_val = any(lz.get(i) == ('I', 'Self') for i in range(len(cells)))
+                O.add('C15', 'unsupported-option-message', isinstance(msg, str) and msg.startswith('Unsupported option'), f'`{msg}`',
+                      cls='delegate_by=Self' if self_val and 'delegate_by' in ref[1] else '')
+        return O
+    res = ref[1]
+    O.add('C17', 'documented-attribute-list-is-accepted', got_ok,
+          f'reference grammar accepts {res} but the macro rejected: `{parsed.fields[0].fields[1] if not got_ok else ""}`',
+          cls=('delegate_by=Self' if res['opts'].get('delegate_by') == 'Self' and any(lz.get(i) == ('I', 'Self') for i in range(len(cells))) else ''))
+    if not got_ok:
+        return O
+    I = In(ex)
+    opts = attr0.f('opts')
+
+    def given(name):
+        o = opts.f(name)
+        return isinstance(o, Obj) and o.variant == 'Some'
+
+    def val(name):
+        return opts.f(name).fields[0].fields[0]
+    for name in ('no_deps', 'debug', 'export', 'unimock', 'mockall'):
+        want = res['opts'].get(name)
+        O.add('C17', f'option-{name}-parsed-as-written', (given(name) == (want is not None)) and (want is None or val(name) == want),
+              f'written {want}, parsed given={given(name)} value={val(name) if given(name) else None}')
+    want = res['opts'].get('mock_api')
+    O.add('C17', 'option-mock_api-parsed-as-written', (given('mock_api') == (want is not None)) and (want is None or opts.f('mock_api').fields[0].fields[0].name == want))
+    O.add('C17', 'option-?Send-parsed-as-written', given('future_send') == ('?Send' in res['opts']) and
+          (not given('future_send') or opts.f('future_send').fields[0].fields[0].fields[0] is False))
+    if target in ('fn', 'mod'):
+        O.add('C17', 'trait-name-parsed-as-written', attr0.f('trait_ident').name == res['ident'])
+        v = show(I.toks(attr0.f('trait_visibility'))).replace(' ', '')
+        O.add('C13', 'trait-visibility-parsed-as-written', v == res['vis'].replace(' ', ''), f'`{v}` vs `{res["vis"]}`')
+    if target == 'trait':
+        it = attr0.f('impl_trait')
+        O.add('C17', 'delegation-target-trait-parsed-as-written', (it.variant == 'Some') == (res['ident'] is not None) and
+              (res['ident'] is None or it.fields[0].fields[1].name == res['ident']))
+        dk = attr0.f('delegation_kind')
+        want = res['opts'].get('delegate_by')
+        if want is None:
+            got = dk.variant == 'None'
+        else:
+            d = dk.fields[0].fields[0] if dk.variant == 'Some' else None
+            if d is None:
+                got = False
+            elif want == 'Self':
+                got = d.variant == 'BySelf'
+            elif want == 'ref':
+                got = d.variant == 'ByRef' and d.fields[0].variant == 'AsRef'
+            elif want == 'Borrow':
+                got = d.variant == 'ByRef' and d.fields[0].variant == 'Borrow'
+            else:
+                got = d.variant == 'ByTrait' and d.fields[0].name == want[1]
+        O.add('C17', 'option-delegate_by-parsed-as-written', got, f'written {want}')
+    if target == 'impl':
+        k = attr0.f('impl_kind').variant
+        O.add('C17', 'impl-kind-parsed-as-written', (k == 'DynRef') == (res['impl_kind'] == 'ref'))
+    return O
+
+
+def ref_parse_lazy(front, LP, target):
+    """front.ref_parse_attr with a lazily forcing token source"""
+    p = LP()
+    res = dict(vis=None, ident=None, opts={}, impl_kind=None)
+    END = front.END
+
+    def vis():
+        if p.peek() == ('I', 'pub'):
+            p.i += 1
+            t = p.peek()
+            if t != END and t[0] == 'G':
+                p.i += 1
+                return 'pub(crate)'
+            return 'pub'
+        return ''
+
+    def add(o):
+        if o[0] in ('err', 'unspecified'):
+            return o
+        if o[0] not in front.ACCEPTED[target]:
+            return ('err', f'option {o[0]} is not documented for {target}')
+        if o[0] in res['opts']:
+            return ('unspecified', 'duplicate option')
+        res['opts'][o[0]] = o[1]
+        return None
+
+    def is_name(t):
+        return t != END and t[0] == 'I' and t[1] not in front.SYN_KEYWORDS
+
+    if target in ('fn', 'mod'):
+        res['vis'] = vis()
+        t = p.peek()
+        if not is_name(t):
+            return ('err', 'trait identifier expected')
+        res['ident'] = t[1]
+        p.i += 1
+        while p.peek() == ('P', ','):
+            p.i += 1
+            r = add(p.option(target))
+            if r:
+                return r
+        if p.peek() != END:
+            return ('err', 'unexpected token')
+        return ('ok', res)
+    if target == 'trait':
+        if p.peek() == END:
+            return ('ok', res)
+        t = p.peek()
+        first_is_opt = False
+        if t == ('P', '?'):
+            first_is_opt = True
+        elif t != END and t[0] == 'I' and t[1] in front.BOOL_OPTS + ('mock_api', 'delegate_by'):
+            save = p.i
+            o = p.option(target)
+            p.i = save
+            if o[0] == 'unspecified':
+                return o
+            if o[0] == 'err':
+                return ('unspecified', 'option keyword in trait-name position')
+            first_is_opt = True
+        if not first_is_opt:
+            res['vis'] = vis()
+            t = p.peek()
+            if not is_name(t):
+                return ('err', 'delegation-target trait identifier expected')
+            res['ident'] = t[1]
+            p.i += 1
+            if p.peek() == ('P', ','):
+                p.i += 1
+            if p.peek() == END:
+                return ('ok', res)
+        while True:
+            r = add(p.option(target))
+            if r:
+                return r
+            if p.peek() == ('P', ','):
+                p.i += 1
+                if p.peek() == END:
+                    return ('unspecified', 'trailing comma')
+            else:
+                break
+        if p.peek() != END:
+            return ('err', 'unexpected token')
+        return ('ok', res)
+    if target == 'impl':
+        kind = 'static'
+        if p.peek() == ('I', 'ref'):
+            p.i += 1
+            kind = 'ref'
+        if p.peek() == ('I', 'dyn'):
+            p.i += 1
+            kind = 'ref'
+        res['impl_kind'] = kind
+        if p.peek() == END:
+            return ('ok', res)
+        if kind == 'ref' and p.peek() == ('P', ','):
+            return ('unspecified', 'separator after ref')
+        while True:
+            r = add(p.option(target))
+            if r:
+                return r
+            if p.peek() == ('P', ','):
+                p.i += 1
+                if p.peek() == END:
+                    return ('unspecified', 'trailing comma')
+            else:
+                break
+        if p.peek() != END:
+            return ('err', 'unexpected token')
+        return ('ok', res)
+    raise ValueError(target)
